@@ -1,6 +1,6 @@
 """Scenario corpus shared by the robustness properties (C02, C04, C07, C09, C10, C11, C20):
 repo test files, generated well-formed archives of all five formats, and damaged variants; plus fault-plan expansion."""
-import os, glob, random, struct
+import zlib, os, glob, random, struct
 import vlib
 from vlib import scenario, gen, cabfmt, chmfmt, kwajfmt, oabfmt, qtmenc, lzxenc
 
@@ -539,7 +539,7 @@ def targeted_cases(rng, n):
                                 rt_entry_size=rng.choice([8, 4]), version=3)
         names = sorted(exp.keys(), key=chmfmt.sort_key); k2 = names.index(b"/c2.bin"); k1 = names.index(b"/c1.bin"); k0 = names.index(b"/c0.bin")
         sc = scenario.Scn().file("in0.chm", chm).op("chm_new").op("chm_open", "h0", "in0.chm")
-        for k in (k2, k0, k1, k2, k1): sc.op("chm_extract", "h0", k, "o%d" % len(sc.lines))
+        for k in (k2, k0, k1, k2, k1): sc.op("chm_extract", "h0", k, "out%d" % len(sc.lines))
         sc.op("chm_close", "h0")
         out.append(Case("gen:chm-short-reset-table", "chm", sc, True, exp))
     # (10) a CHM cut in the middle of a directory chunk: the same name looked up twice on one fast_open()ed header (a failed chunk read must leave nothing behind)
@@ -559,4 +559,40 @@ def targeted_cases(rng, n):
         cab = cabfmt.build_single([fo], rng, with_ck=True)
         sc = scenario.Scn().file("in0.cab", cab).op("cab_new").op("cab_open", "c0", "in0.cab").op("cab_extract_all", "c0", "out", 3).op("cab_extract_all", "c0", "outr", 3, 1).op("cab_close", "c0")
         out.append(Case("gen:qtm-small-window", "cab", sc))
+    # (12) reset tables whose TableOffset field points near 2^32 / beyond the table (32-bit arithmetic on file-controlled offsets)
+    for i in range(max(3, n // 2)):
+        f1 = [(b"/c%d.bin" % j, [30000, 40000][j]) for j in range(2)]
+        es = [8, 4][i % 2]
+        chm, exp = chmfmt.build([(b"/index.html", b"<html>hi</html>")], f1, rng, chunk_size=4096, wbits=16, reset_frames=1, rt_entry_size=es, version=3)
+        rt = exp[chmfmt.RTABLE][3]; at = chm.find(rt)
+        if at < 0: continue
+        b = bytearray(chm)
+        struct.pack_into("<I", b, at + 12, [0xFFFFFFF8, 0xFFFFFFFC, 0xFFFFFFF0, len(rt) - 4, len(rt), 0x7FFFFFF8, 0xFFFFFFFF][i % 7] if es == 8 or i % 7 != 0 else 0xFFFFFFFC)
+        sc = scenario.Scn().file("in0.chm", bytes(b)); fmt_ops("chm", sc, 8); out.append(Case("hostile:chm-reset-table-offset", "chm", sc))
+    # (13) MSZIP blocks that produce more than a frame: a stored block longer than the room left in the frame, a deflate stream of 40000 bytes;
+    #      strict and repair mode, more than a frame requested
+    for i in range(max(4, n // 2)):
+        kind = i % 4
+        if kind == 0: blk = b"CK" + bytes([1]) + struct.pack("<HH", 0x8001, 0x7FFE) + bytes(rng.randrange(256) for _ in range(0x8001))
+        elif kind == 1:
+            d1 = bytes(rng.randrange(256) for _ in range(20000)); d2 = bytes(rng.randrange(256) for _ in range(18000))
+            blk = b"CK" + bytes([0]) + struct.pack("<HH", 20000, 20000 ^ 0xFFFF) + d1 + bytes([1]) + struct.pack("<HH", 18000, 18000 ^ 0xFFFF) + d2
+        else:
+            raw = bytes(rng.choice(b"abcdefgh") for _ in range([40000, 32769, 65536][i // 4 % 3])); co = zlib.compressobj(9, zlib.DEFLATED, -15)
+            blk = b"CK" + co.compress(raw) + co.flush()
+        fo = cabfmt.Folder(("mszip",), cabfmt.random_members(rng, 2, lens=[70000, 100])); fo.prepare(rng)
+        fo.blocks = [(blk, 32768)] + fo.blocks[1:]
+        cab = cabfmt.build_single([fo], rng, with_ck=True)
+        sc = scenario.Scn().file("in0.cab", cab).op("cab_new").op("cab_param", 1, 1 if i % 2 == 0 or kind == 2 else 0).op("cab_open", "c0", "in0.cab").op("cab_extract_all", "c0", "out", 2).op("cab_close", "c0")
+        out.append(Case("hostile:mszip-overlong-block", "cab", sc))
+    # (14) a directory chunk with a wrong signature reached by fast_find (twice), then close
+    for i in range(max(2, n // 3)):
+        f0 = [(b"/f%03d.txt" % j, b"x" * (j % 7)) for j in range(60)]
+        chm, exp = chmfmt.build(f0, [], rng, chunk_size=256, density=2, with_index=(i % 2 == 1))
+        dirstart = 0x38 + 0x28 + 0x18 + 0x54; k = i % 3
+        b = bytearray(chm); b[dirstart + k * 256 + 3] = ord("X")
+        sc = scenario.Scn().file("in0.chm", bytes(b)).op("chm_new").op("chm_fast_open", "h0", "in0.chm")
+        for nm in (b"/f%03d.txt" % (10 * k + 2), b"/f%03d.txt" % (10 * k + 2), b"/f059.txt", b"/f000.txt"): sc.op("chm_find", "h0", nm.hex())
+        sc.op("chm_close", "h0")
+        out.append(Case("hostile:chm-bad-chunk-signature", "chm", sc))
     return out
